@@ -6,6 +6,21 @@ ALL = ["C%02d" % i for i in range(1, 21)]
 
 # id -> dict(level, text, note, technique, design_ref, engine)
 CHECKS = {
+ "C01": dict(level="model_checking", engine="seqx",
+   text="Explicit-state BFS over all array view states reachable by chains of Slice(loc,dims,step) from roots [7],[3,4],[2,3,4],[2,2,2,3] (thorough also [10],[4,5],[3,3,3]), for 8 element types and both back-ends, states deduplicated by the implementation's private fields; the search runs to a FIXPOINT (the frontier empties), so every reachable view of these roots is covered. In every state every element is read through every view of the chain and every addressable write (Set, SetN, Apply, Apply1, ApplySlice with contiguous/stepped/row-gapped sources, CopyFrom; write pairs in thorough) is applied on the real arrays and the whole storage, guard zones and all views are compared with an index-list reference model.",
+   note="Reference model = flat store + explicit offset lists, trusted. Root shapes and step values {nil,1,2,3} as stated.",
+   technique="explicit-state search (BFS to fixpoint) over view states of the real arrays in lock-step with a reference model",
+   design_ref="2/C01"),
+ "C02": dict(level="model_checking", engine="seqx",
+   text="The C01 search extended with Reshape transitions (every ordered factorisation into <=4 factors), depth-bounded; in every state Contiguous, Unroll (values and aliasing), ReshapeFast/Reshape/MustReshape error behaviour, row-major values of every same-count reshape, Maximum/Minimum and AddTo/Scale/ApplyFunc1 with contiguous/stepped/row-gapped/self sources are compared with the model; the integer helpers are checked over all vectors of length 1..4.",
+   note="Depth bound reported per exploration (the reshape closure does not close within it); two-array operations exist for 6 element types.",
+   technique="explicit-state search (depth-bounded BFS over slice/reshape chains) on the real arrays in lock-step with a reference model",
+   design_ref="2/C02"),
+ "C03": dict(level="model_checking", engine="seqx + cabi",
+   text="(a) The C01+C02 search (slice and reshape transitions, all reads, all writes, bulk operations) on arrays wrapped around caller-owned memory of the C element type with guard zones, against the same reference model the Go-backed arrays satisfy, i.e. lock-step observational equivalence of the two back-ends through the model, plus out-of-buffer write detection. (b) the C ABI: every catalogued model x cells x parameter sets x input sets x timesteps x initStates through RunSingleModel of a freshly built libopenwater.so with guard pages, compared bit-for-bit with the Go API.",
+   note="Guard zones of 24 elements (a) and PROT_NONE pages (b) detect out-of-buffer accesses; equality of back-ends follows by transitivity through the model.",
+   technique="explicit-state search over operation sequences on C-backed arrays against the reference model; bounded-exhaustive C ABI grid under guard pages",
+   design_ref="2/C03"),
  "C04": dict(level="exploration", engine="gridx",
    text="All 41 models x cells N=1..4 x parameter-set and input-block counts in {1, N, coprime below N} x T x output arrays exact or one larger in every dimension x Go- or C-backed arrays with canaries x model-initialised or caller-filled distinct state rows; per-cell table lengths differ for the dimensioned models. Every cell of the vectorised run is compared bit-for-bit with a fresh single-cell run of its parameter column, input block and state row; inputs/parameters unchanged; slack and canaries untouched.",
    note="Exhaustive over the stated grid. Writes that store an equal value are not observable without the access log. Two recorded findings: InitialiseStates for GR4J/Lag with state lengths growing across cells.",
